@@ -619,8 +619,104 @@ fn build_other<K: Elem, V: Elem>(kind: u8, d: &MapDrv<K, V>) -> Map<K, V> {
     t
 }
 
+/// clone_from out of a very large, sparse source (2^18..2^21 buckets, a handful of elements) with a fault in every
+/// Clone / Alloc / Drop invocation: the unwind guards of clone_from run on a table whose header is deliberately not
+/// well-formed at that moment, and code gated on the table size must cope with that too.
+fn huge_clone_from_faults(c: &mut Ctx, rng: &mut Rng) {
+    use crate::elem::T24;
+    let lg = *rng.pick(&[18u32, 20, 20, 21]);
+    let cap = (1usize << lg) / 8 * 7;
+    let plan = *rng.pick(&[Plan::Mixed, Plan::Tail, Plan::Ident]);
+    let bh_s = PlanBH::new(plan, rng.next());
+    let bh_t = PlanBH::new(plan, rng.next());
+    let n_src = 3 + rng.below(10) as u32;
+    let mut d = Json::obj();
+    d.set("case", Json::s(format!("clone_from out of a sparse source of 2^{} buckets ({} elements) with Clone/Alloc/Drop faults", lg, n_src)));
+    c.describe(d);
+    c.bump("huge_clone_from_fault_cases");
+    let mut source: Map<T24, T24> = Map::with_capacity_and_hasher_in(cap, bh_s, crate::ckalloc::CkAlloc { id: 0 });
+    for i in 0..n_src {
+        source.insert(T24::make(i, 1), T24::make(i + 50, 1));
+    }
+    let src_before = contents(&source);
+    let mk_target = |kind: u8| -> Map<T24, T24> {
+        let mut t: Map<T24, T24> = match kind {
+            0 => Map::with_hasher_in(bh_t, crate::ckalloc::CkAlloc { id: 9 }),
+            _ => Map::with_capacity_and_hasher_in(20, bh_t, crate::ckalloc::CkAlloc { id: 9 }),
+        };
+        if kind != 0 {
+            for i in 0..6u32 {
+                t.insert(T24::make(900 + i, 9), T24::make(9, 9));
+            }
+            t.remove(&KeyRef(901));
+        }
+        t
+    };
+    for kind in 0..2u8 {
+        for class in [Class::Clone, Class::Alloc, Class::Drop] {
+            // dry run: how often is the class invoked?
+            fuse::reset_counts();
+            let mut t = mk_target(kind);
+            t.clone_from(&source);
+            let n_c = fuse::count(class);
+            drop(t);
+            for k in 0..n_c.min(10) {
+                let what = format!("clone_from(source of 2^{} buckets, {} elements) into target kind {} with fault ({},{})", lg, n_src, kind, class.name(), k);
+                let mut t = mk_target(kind);
+                fuse::reset_counts();
+                fuse::arm(class, k);
+                let r = catch(|| t.clone_from(&source));
+                let fired = r.is_err();
+                fuse::disarm();
+                c.evaluations += 1;
+                if fired {
+                    c.bump(&format!("fired_{}", class.name()));
+                    c.sig_parts(&[444, lg as u64, kind as u64, class as u64, k.min(3)]);
+                    if class == Class::Drop {
+                        c.leak_ok = true;
+                    }
+                }
+                // the target is a valid collection: structure, len == yielded == found by its own lookups
+                let td = t.verif_dump();
+                validate::check_safety(&td, &what);
+                let yielded: Vec<u32> = t
+                    .iter()
+                    .map(|(k, v)| {
+                        k.check();
+                        v.check();
+                        k.id()
+                    })
+                    .collect();
+                crate::check!(yielded.len() == t.len(), "{}: the target has len() {} but yields {} entries", what, t.len(), yielded.len());
+                let found = yielded.iter().filter(|id| t.get(&KeyRef(**id)).is_some()).count();
+                crate::check!(found == yielded.len(), "{}: the target yields {} entries but finds only {}", what, yielded.len(), found);
+                if !fired {
+                    crate::check!(t == source, "{}: completed clone_from, but target != source", what);
+                }
+                // reuse, then drop
+                let use_r = catch(|| {
+                    t.insert(T24::make(10, 8), T24::make(8, 8));
+                    crate::check!(t.contains_key(&KeyRef(10)), "{}: insert(10) after the fault is not found", what);
+                    t.clear();
+                });
+                if let Err(p) = use_r {
+                    crate::viol!("{}: using the target after the caught panic panicked: {}", what, payload_str(&p));
+                }
+                drop(t);
+            }
+        }
+    }
+    crate::check!(contents(&source) == src_before, "clone_from changed its source");
+    let sd = source.verif_dump();
+    validate::check_safety(&sd, "clone_from source (2^lg buckets)");
+}
+
 pub fn run(c: &mut Ctx) {
     c.run_scenarios(|c, idx, rng| {
+        if crate::util::mix(idx ^ 0x4c0) % 150 == 0 && !crate::util::slow_lane() {
+            huge_clone_from_faults(c, rng);
+            return;
+        }
         // one scenario in five enumerates faults on a HashSet or a HashTable
         match crate::util::mix(idx) % 10 {
             0 => other::set_scenario::<crate::elem::T24>(c, rng),
